@@ -163,6 +163,40 @@ def same_stem_family():
     return problems
 
 
+def dir_output_family():
+    """A script may create `$3` as a directory (mkdir "$3"; the repository's own t/250-makedir does).  The clauses about
+    failure apply all the same: a failing script leaves the previous target as it was, the command fails with the
+    script's status (no internal abort), no temporary output is left behind, and the next build works."""
+    probs = []
+    for how, body, prior in (("fails after creating $3 as a directory", 'mkdir "$3"\necho x >"$3/file"\nexit 7\n', False),
+                             ("fails after creating $3 as a directory, target was a directory", 'mkdir "$3"\necho y >"$3/file"\nexit 7\n', True)):
+        pr = Project()
+        try:
+            if prior:
+                pr.write("d.do", 'mkdir "$3"\necho old >"$3/file"\n')
+                rc0, _, err0 = pr.run(["redo-ifchange", "d"], timeout=30)
+                if rc0 != 0 or pr.read("d/file") != b"old\n":
+                    probs.append(dict(how="directory output (setup)", rc=rc0, stderr=err0[-300:])); continue
+            pr.write("d.do", body)
+            rc, out, err = pr.run(["redo-ifchange", "d"], timeout=30)
+            left = os.path.lexists(pr.path("d.redo.tmp"))
+            tgt = pr.read("d/file")
+            want_tgt = b"old\n" if prior else None
+            if rc == 0 or rc == 101 or "panicked" in err or left or tgt != want_tgt:
+                probs.append(dict(how=how, rc=rc, panicked="panicked" in err, tmp_left=left, target_file=tgt, expected_target_file=want_tgt, stderr=err[-300:]))
+                continue
+            if prior:
+                continue      # (installing over a non-empty directory is the modelled install-failure corner, status 209)
+            # the script is repaired: the next build must work without manual clean-up
+            pr.write("d.do", 'mkdir "$3"\necho new >"$3/file"\n')
+            rc2, out2, err2 = pr.run(["redo-ifchange", "d"], timeout=30)
+            if rc2 != 0 or pr.read("d/file") != b"new\n" or os.path.lexists(pr.path("d.redo.tmp")):
+                probs.append(dict(how=how + ", then repaired", rc=rc2, target_file=pr.read("d/file"), tmp_left=os.path.lexists(pr.path("d.redo.tmp")), stderr=err2[-300:]))
+        finally:
+            pr.destroy()
+    return probs
+
+
 def run(ctx):
     rng = random.Random(ctx["seed"])
     viol = ctx.setdefault("violations", [])
@@ -251,6 +285,11 @@ def run(ctx):
         if probs:
             pth = write_replay("C04", "same-stem", dict(kind="impl-monitor", problems=probs))
             viol.append(Violation("C04", pth, "targets sharing a stem built together: %s" % json.dumps(probs[0])[:400]))
+    if not viol:
+        probs = dir_output_family()
+        if probs:
+            pth = write_replay("C04", "dir-output", dict(kind="impl-monitor", problems=probs, scenario='d.do: mkdir "$3"; echo x >"$3/file"; exit 7 — then the script is repaired'))
+            viol.append(Violation("C04", pth, "script %s: exit %s%s, temporary output left: %s" % (probs[0]["how"], probs[0]["rc"], " (internal abort)" if probs[0].get("panicked") else "", probs[0].get("tmp_left"))))
     return dict(evaluations=len(results), distinct_nontrivial=len(set(reqs)),
                 rule="behaviour product stdout{0,1,64K} x $3{none,1,64K,empty,created-then-deleted} x $1{untouched,written,written with an older mtime,deleted} x exit{0,1,7,SIGKILL at start,SIGKILL after output,SIGTERM at end} x prior{absent,generated} x stale tmp file{no,yes}, + target-is-a-non-empty-directory install failures (%s); distinct = distinct model inputs reached" % ("all %d" % len(full) if thorough else "seeded sample of 140 + 9 corner cases of %d" % len(full)),
                 samples=samples, exhaustive=thorough, disagreements_checked=len(results),
